@@ -14,11 +14,13 @@ import (
 
 // SelectTables returns the SQL tables found in the given analysis.
 func SelectTables(ana *an.Analysis) (out []Table) {
+	seen := make(map[*an.Struct]bool) // an alias shares the node of its target
 	for _, ty := range ana.Source {
 		st, ok := ana.Types[ty].(*an.Struct)
-		if !ok {
+		if !ok || seen[st] {
 			continue
 		}
+		seen[st] = true
 		out = append(out, NewTable(st))
 	}
 	return out
